@@ -11,6 +11,8 @@ from common import show_list, frac_str
 
 LEVEL = "proof"
 LEAN_PROPS = ["FastTicc.Props.C08", "FastTicc.Props.C08b"]
+LEAN_TRANSLATED = {"FastTicc.Props.TrDonors": ["_find_ranked_donor_cluster_ids"],
+                   "FastTicc.Props.TrFindDonor": ["_find_point_donor"]}
 LEAN_HELPERS = ["FastTicc.Proofs.Repop"]
 RULE = ("all cluster-size vectors with K<=4 (thorough: K<=5), sizes 0..3m+2, m in {1,2} (thorough: {1,2,3}), labels "
         "shuffled, spreads with ties, plus random larger cases (K<=12, m<=25); random.sample wrapped so the drawn "
@@ -255,6 +257,46 @@ def run(ctx):
                  sample={"K": K, "m": m, "sizes": sizes, "spreads": spreads, "donors_used": used,
                          "error": err is not None} if needy and len(ctx.samples) < 5 and used else None)
     outs = ctx.driver.run(lines)
+    # the donor ranking TRANSLATED from the source (Generated/Kernels.lean; theorem find_ranked_donor_cluster_ids_eq) on the
+    # same sizes and spreads, against the implementation's own ranking helper (when it still exists under that name)
+    rank_fn = getattr(cm, "_find_ranked_donor_cluster_ids", None)
+    if rank_fn is not None:
+        gen_cases = []
+        for c in cases[:4000]:
+            if c.get("chain") or any(float(x) < 0 for x in c["spreads"]):
+                continue
+            st_ = build_state(c["K"], c["m"], c["labels"], c["spreads"])
+            try:
+                ranked = [int(x) for x in rank_fn(st_)]
+            except Exception:
+                continue
+            sizes_ = [c["labels"].count(k) for k in range(c["K"])]
+            gen_cases.append((f"{c['m']} {show_list(sizes_)} {show_list(c['spreads'], lambda x: frac_str(Fraction(x)))}",
+                              "ok " + show_list(ranked), c))
+        ctx.gen_compare("_find_ranked_donor_cluster_ids", gen_cases)
+    # the donor search TRANSLATED from the source (its while loop, both returns, the pop of the LAST candidate; theorem
+    # find_point_donor_eq) on ranked lists and on arbitrary candidate lists (small clusters in any position)
+    find_fn = getattr(cm, "_find_point_donor", None)
+    if find_fn is not None:
+        gen_cases = []
+        r_f = pyrandom.Random(ctx.seed + 808)
+        for c in cases[:3000]:
+            if c.get("chain"):
+                continue
+            st_ = build_state(c["K"], c["m"], c["labels"], c["spreads"])
+            sizes_ = [c["labels"].count(k) for k in range(c["K"])]
+            cand = [list(range(c["K"])), r_f.sample(range(c["K"]), r_f.randint(0, c["K"])),
+                    sorted(range(c["K"]), key=lambda k: -sizes_[k])]
+            for ids in cand[: (3 if len(gen_cases) < 3000 else 1)]:
+                try:
+                    d_, rest_ = find_fn(st_, list(ids))
+                    exp = f"ok {int(d_)} {show_list([int(x) for x in rest_])}"
+                except RuntimeError:
+                    exp = "err RuntimeError"
+                except Exception as e:
+                    exp = "err " + type(e).__name__
+                gen_cases.append((f"{c['m']} {show_list(sizes_)} {show_list(ids)}", exp, c))
+        ctx.gen_compare("_find_point_donor", gen_cases)
     for item, mo in zip(impl, outs):
         if item is None:
             continue
